@@ -172,6 +172,8 @@ class VHDX(AlignedStream):
         return b"".join(sectors_read)
 
     def _read(self, offset: int, length: int) -> bytes:
+        # The stream buffer may ask for more than what is left of the disk
+        length = min(length, self.size - offset)
         sector = offset // self.sector_size
         count = (length + self.sector_size - 1) // self.sector_size
 
